@@ -378,6 +378,16 @@ def _unrolled_ifs(stmts, fenv, bindings, aliases, out):
             _unrolled_ifs(h.body, fenv, bindings, aliases, out)
 
 
+def _through(node, fenv, depth=0):
+    """the nodes of an expression, looking through locals that are assigned once (hoisted sub-expressions)"""
+    for n in ast.walk(node):
+        yield n
+        if isinstance(n, ast.Name) and depth < 5:
+            v = fenv.single(n.id)
+            if v is not None:
+                yield from _through(v, fenv, depth + 1)
+
+
 def read_memory(pm, interp):
     """process_memory_address: scaling shift ops, `scale = b ** int(..)`, default scale, forced alias prefixes, int bases"""
     fenv = U.FnEnv(pm, interp)
@@ -396,10 +406,13 @@ def read_memory(pm, interp):
     r["scale_base"] = base
     # the test that guards it: <shift_op>.lower() in <constant collection of strings>
     cands = []
+    guards = []     # conditional expressions `<pow> if <test> else <default>`
     for st in ast.walk(pm):
-        if not (isinstance(st, ast.If) and any(x is pows[0][1] for b in st.body for x in ast.walk(b))):
+        if isinstance(st, ast.IfExp) and any(x is pows[0][1] for x in ast.walk(st.body)):
+            guards.append(st)
+        elif not (isinstance(st, ast.If) and any(x is pows[0][1] for b in st.body for x in ast.walk(b))):
             continue
-        for n in ast.walk(st.test):
+        for n in _through(st.test, fenv):
             if isinstance(n, ast.Compare) and len(n.ops) == 1 and isinstance(n.ops[0], (ast.In, ast.NotIn)):
                 ok, v = fenv.try_const(n.comparators[0])
                 if ok and isinstance(v, (list, tuple, set, frozenset)) and v and all(isinstance(x, str) for x in v):
@@ -416,13 +429,19 @@ def read_memory(pm, interp):
     if not isinstance(sv, ast.Name):
         raise TranslateError("process_memory_address: default scale not found")
     defaults, others = [], []
+    for g in guards:
+        ok, c = fenv.try_const(g.orelse)
+        if ok and isinstance(c, int) and not isinstance(c, bool):
+            defaults.append(c)
+        else:
+            raise TranslateError("process_memory_address: default scale not found")
     for v in fenv.assigns.get(sv.id, []):
         ok, c = fenv.try_const(v) if v is not None else (False, None)
         if ok and isinstance(c, int) and not isinstance(c, bool):
             defaults.append(c)
         else:
             others.append(v)
-    if len(defaults) != 1 or len(others) != 1 or others[0] is None or not any(x is pows[0][1] for x in ast.walk(others[0])):
+    if len(set(defaults)) != 1 or len(others) != 1 or others[0] is None or not any(x is pows[0][1] for x in ast.walk(others[0])):
         raise TranslateError("process_memory_address: default scale not found")
     r["default_scale"] = defaults[0]
     # if <x> is not None and "name" in <x> and <x>["name"].lower() == "<alias>": <x>["prefix"] = "<p>"
